@@ -46,7 +46,8 @@ def run(ctx, progs):
     ctx.explanation = EXPLANATION
     for r, t in (("TWIN", "Iter/IterMut and helper pairs equal modulo mutability [twin]"), ("MIRROR", "next/next_back mirror images"),
                  ("ESI1", "len/size_hint/next shapes"), ("CLONE1", "Iter::clone field-for-field"), ("DEFAULT1", "default = empty"),
-                 ("INTO1", "IntoIter = pop_front/pop_back/len of the owned buffer"), ("RANGE1", "bound translation")):
+                 ("INTO1", "IntoIter = pop_front/pop_back/len of the owned buffer"), ("RANGE1", "bound translation"),
+                 ("ITERSET1", "the iterator types implement exactly the reviewed iterator methods (no second implementation of the iteration order)")):
         ctx.rule(r, t)
     for cfg, prog in progs.items():
         for a, b in PAIRS:
@@ -55,6 +56,7 @@ def run(ctx, progs):
             shapes.twin(ctx, "MIRROR", prog, "<%s as Iterator>::next" % ty, "<%s as DoubleEndedIterator>::next_back" % ty, cfg,
                         post=shapes.swap_lr, what="mirror images (right<->left, first<->last)")
         esi1(ctx, prog, cfg)
+        iterset1(ctx, prog, cfg)
         into1(ctx, prog, cfg)
         drainrules.range1(ctx, prog, cfg)
 
@@ -128,3 +130,33 @@ def into1(ctx, prog, cfg):
     ctx.check(ii is not None and len(ii["fields"]) == 1, "INTO1", "IntoIter", "no other state", ii["loc"] if ii else "?",
               "IntoIter has fields %s: extra state can desynchronise it from the buffer" % ([f["name"] for f in ii["fields"]] if ii else None),
               "single field `inner`", cfg)
+
+
+ITER_TYPES = ("Iter", "IterMut", "IntoIter", "Drain")
+ITER_METHODS = {
+    "core::iter::traits::iterator::Iterator": {"next", "size_hint"},
+    "core::iter::traits::double_ended::DoubleEndedIterator": {"next_back"},
+    "core::iter::traits::exact_size::ExactSizeIterator": {"len"},
+    "core::iter::traits::marker::FusedIterator": set(),
+}
+
+
+def iterset1(ctx, prog, cfg, rule="ITERSET1", types=ITER_TYPES):
+    """Every provided iterator method that a type overrides (nth, fold, rfold, advance_by, last,
+    count, ...) is a second implementation of the iteration order / element ownership that has to
+    agree with next/next_back; the crate overrides none, and a new override is reported for review."""
+    n = 0
+    for imp in prog.impls:
+        adt = (imp.get("self_adt") or "").split("::")[-1]
+        tr = imp.get("trait")
+        if adt not in types or tr not in ITER_METHODS:
+            continue
+        n += 1
+        fns = {i["name"] for i in imp.get("items", []) if i.get("kind", "").startswith("Fn")}
+        extra = fns - ITER_METHODS[tr]
+        missing = ITER_METHODS[tr] - fns if tr != "core::iter::traits::iterator::Iterator" or adt else set()
+        ctx.check(not extra, rule, adt, "%s methods" % tr.split("::")[-1], imp["loc"],
+                  "`%s` overrides the provided iterator method(s) %s: a second implementation of the iteration protocol next to "
+                  "next/next_back (skipped elements, order, exhaustion and ownership must all agree) that has not been reviewed"
+                  % (adt, sorted(extra)), "implements exactly %s" % sorted(fns), cfg)
+    ctx.floor(rule, "iterator trait impls", n, 3 * len(types), cfg)
